@@ -29,10 +29,10 @@ if [ $SUITE != 0 ]; then
 fi
 res "suite_exit_with_patch=$SUITE"
 cp $DEMO $PKG/
-go test -vet=off -count=1 -run "$RUN" ./$PKG/ > /tmp/confirm/$P$X/demo_with.log 2>&1; DW=$?
+go test -vet=off -count=1 ${DEMOFLAGS:-} -run "$RUN" ./$PKG/ > /tmp/confirm/$P$X/demo_with.log 2>&1; DW=$?
 res "demo_exit_with_patch=$DW"
 git checkout -q -- . 
-go test -vet=off -count=1 -run "$RUN" ./$PKG/ > /tmp/confirm/$P$X/demo_without.log 2>&1; DWO=$?
+go test -vet=off -count=1 ${DEMOFLAGS:-} -run "$RUN" ./$PKG/ > /tmp/confirm/$P$X/demo_without.log 2>&1; DWO=$?
 res "demo_exit_without_patch=$DWO"
 if [ $SUITE = 0 ] && [ $DW != 0 ] && [ $DWO = 0 ]; then
   mkdir -p $OUT; cp $SRC/patch.diff $DEMO $OUT/; [ -f $SRC/notes.md ] && cp $SRC/notes.md $OUT/
